@@ -12,6 +12,18 @@ CHECKS = [
          note=("Trusted: Coq kernel, extraction (ExtrOcamlBasic), ocaml/driver.ml, Go harness; Go's container/heap "
                "is modelled by transliteration (Cont/Heap.v), Go map iteration assumed to enumerate each key once."),
          technique=T_CORR),
+    dict(id='C18',
+         text=("Coq theorems: for every well-formed language row (predicate evaluated on the table dumped from the "
+               "running code at every check) and every input, the model of Parse's lexer terminates and returns exactly "
+               "the comments of an independently written reference lexer (order, text, 1-based lines); ChunkIterator's "
+               "model is total, delivers each comment once in order in maximal runs, and the run conditions determine "
+               "the chunking uniquely. Model tied to the code by exhaustive short token strings per language row plus "
+               "random programs; the reference lexer is also run directly against the code as the property oracle."),
+         note=("Trusted: Coq kernel, extraction, driver, Go harness; input decoding to runes is Go's; Go's match() "
+               "push-back is modelled as prefix test (equal whenever input ends in newline, which Parse forces). The "
+               "reference lexer fixes the reading of the informal property (unterminated lexeme yields no comment, "
+               "Python module docstrings are comments, chunk adjacency is by start line)."),
+         technique=T_CORR),
 ]
 _PENDING = "check under construction in this round (model/proof not yet committed); not claimed until it is"
-NOT_APPLICABLE = [dict(property_id='C%02d' % i, reason=_PENDING) for i in range(1, 20)]
+NOT_APPLICABLE = [dict(property_id='C%02d' % i, reason=_PENDING) for i in range(1, 20) if i != 18]
